@@ -64,8 +64,51 @@ def mk_array(F, dtype, values, shape=None):
     return a.reshape(shape) if shape is not None else a
 
 
+# "age" of the objects built by raw_fxp for the configuration being run (set by the runner from cfg['age']): None = a fresh object;
+# otherwise the object has a past -- it lived in another format, held values, was used by several operators, and was then
+# re-formatted to the requested format by the named route before the symbolic code is written.  A well-formed object must behave the
+# same whatever its past (stale cached attributes are exactly what this is after).
+AGE = None
+AGE_ROUTES = ('resize', 'resize_dtype', 'resize_nint', 'like', 'resize_signed_then_sizes')
+
+
+def _aged(F, signed, n_word, n_frac, shape, kw):
+    k = size_of(shape) if shape else 1
+    first = nested([1] * k, shape) if shape else 1
+    s0 = (not signed) if (AGE == 'resize_signed_then_sizes' and n_word > 1) else signed
+    x = F.Fxp(first, s0, n_word + 2, n_frac + 1, **kw)
+    # a first life: values, reads, operators
+    x.set_val(nested([0] * k, shape) if shape else 0)
+    (~x), (x + x), (x >> 1), x.bin(), x.get_val(), (x == x)
+    if n_word + 2 < 64:
+        x.astype(int)           # (on a 64+ bit scalar with n_frac != 0 astype(int) raises AttributeError: observed, outside the properties)
+    x.set_val(nested([1] * k, shape) if shape else 1)
+    if AGE == 'resize':
+        x.resize(signed, n_word, n_frac)
+    elif AGE == 'resize_dtype':
+        x.resize(dtype=fmt_str(signed, n_word, n_frac))
+    elif AGE == 'resize_nint':
+        x.resize(n_word=n_word, n_int=n_word - n_frac - int(signed))
+    elif AGE == 'resize_signed_then_sizes':
+        x.resize(signed=signed)
+        x.resize(n_word=n_word)
+        x.resize(n_frac=n_frac)
+    else:
+        x = x.like(F.Fxp(None, signed, n_word, n_frac, **kw))
+    return x
+
+
 def raw_fxp(F, signed, n_word, n_frac, codes, shape=None, **kw):
     """well-formed object holding the given code(s), built through the public API"""
+    if AGE is not None:
+        x = _aged(F, signed, n_word, n_frac, shape if shape and shape != () else None, kw)
+        if shape is None or shape == ():
+            x.set_val(codes[0] if _isinstance(codes, (list, tuple)) else codes, raw=True)
+        else:
+            dt = 'O' if n_word >= 64 else ('int64' if signed else 'uint64')
+            x.set_val(mk_array(F, dt, list(codes), shape), raw=True)
+        x.reset()
+        return x
     x = F.Fxp(None, signed, n_word, n_frac, **kw)
     if shape is None or shape == ():
         x.set_val(codes[0] if _isinstance(codes, (list, tuple)) else codes, raw=True)
